@@ -361,6 +361,21 @@ def termination(ctx, F, cl, loop_table):
                 finite = ("TagIter", "EFIMemoryAreaIter", "ElfSectionIter", "ModuleIter", "core::slice::iter::Iter", "core::slice::iter::Windows")
                 if nexts and all(any(f in n for f in finite) for n in nexts):
                     reason = "for-loop over a finite iterator (%s)" % ", ".join(sorted({[f for f in finite if f in n][0] for n in nexts}))
+            if reason is None:
+                # counting loop: a local that starts at a constant, grows by a positive constant on every iteration, and must pass a
+                # guard `L + k <= E` (E loop-invariant and bounded) to get there (guard.Guards.counter_facts): a bounded, strictly
+                # increasing measure
+                try:
+                    A_ = an.of(F, inst)
+                    blocks_ = set()
+                    for (t2, h2) in b.back_edges():
+                        if h2 == head:
+                            blocks_ |= b.loop_blocks(h2, t2)
+                    cs_ = A_.g._counters_of(head, blocks_)
+                    if cs_:
+                        reason = "counting loop: local _%d grows by a positive constant per iteration and is bounded by %d" % (cs_[0][0], cs_[0][1])
+                except Exception:
+                    pass
             ctx.check(reason is not None, "P7", "loop:%s" % name, "the loop in %s terminates" % name.split("::")[-1], inst.get("span", ""),
                       how=reason or "", why="loop not in the loop table and not a for-loop over a known finite iterator")
     ctx.count("natural loops on the parse path", n_loops)
